@@ -289,6 +289,7 @@ def main():
     os.makedirs(BUILD_ROOT, exist_ok=True)
     lock = open(os.path.join(BUILD_ROOT, f".lock.{a.flavour}"), "w")
     fcntl.flock(lock, fcntl.LOCK_EX)
+    known_roots()          # resolve (and record) the roots once, before any worker thread reads them
     ok, rebuilt = build_lib(a.flavour, a.quiet)
     if not ok:
         print("BUILD-FAILED lib", flush=True)
